@@ -4,8 +4,8 @@
 import json, os, re, shutil, subprocess, sys
 VERIF = os.path.dirname(os.path.dirname(os.path.abspath(__file__)))
 for prop in sys.argv[1:]:
-    for x in 'ABCDEFGHIJKLMNOPQR':
-        src = '/tmp/mut/%s/%s' % (prop, 'out' if x in 'AB' else ('out2' if x in 'CD' else ('out3' if x in 'EF' else ('out4' if x in 'GH' else ('out5' if x in 'IJ' else ('out6' if x in 'KL' else ('out7' if x in 'MN' else ('out8' if x in 'OP' else 'out9'))))))))
+    for x in 'ABCDEFGHIJKLMNOPQRST':
+        src = '/tmp/mut/%s/%s' % (prop, 'out' if x in 'AB' else ('out2' if x in 'CD' else ('out3' if x in 'EF' else ('out4' if x in 'GH' else ('out5' if x in 'IJ' else ('out6' if x in 'KL' else ('out7' if x in 'MN' else ('out8' if x in 'OP' else ('out9' if x in 'QR' else 'out10')))))))))
         if not os.path.exists('%s/patch_%s.diff' % (src, x)):
             continue
         dst = os.path.join(VERIF, 'seeded', '%s-%s' % (prop, x))
